@@ -8,13 +8,15 @@ use lc3_ensemble::sim::device::{BufferedDisplay, BufferedKeyboard, TimerDevice};
 use lc3_ensemble::sim::mem::MachineInitStrategy;
 use lc3_ensemble::sim::{SimFlags, Simulator};
 
-const PROGRAMS: [&str; 5] = [
+const PROGRAMS: [&str; 6] = [
     // observes the machine fill: uninitialized registers and memory flow into results
     ".orig x3000\nADD R0,R1,R2\nLDR R3,R4,#0\nST R0, X\nLD R5, Y\nADD R5,R5,R3\nNOT R6,R7\nSTR R5,R6,#0\nBRn A\nADD R0,R0,#1\nA LD R1, FAR\nHALT\nX .blkw 1\nY .blkw 1\nFAR .fill x1234\n.end",
     ".orig x3000\nAND R0,R0,#0\nL ADD R0,R0,#1\nBRnzp L\n.end",
     ".orig x3000\nL GETC\nOUT\nBRnzp L\n.end",
     ".orig x3000\nLEA R0, S\nPUTS\nLD R6, SP\nJSR F\nHALT\nF STR R7,R6,#-1\nADD R1,R1,#1\nRET\nSP .fill xFD00\nS .stringz \"seeded\"\n.end",
     ".orig x3000\nLD R6, SP\nL ADD R6,R6,#-1\nSTR R6,R6,#0\nLDR R1,R6,#0\nADD R2,R2,R1\nBRnzp L\nSP .fill x8000\n.end",
+    // reads I/O addresses that nothing answers (unmapped ports, KBDR/KBSR possibly with nothing queued) and the device registers, with privilege checks off
+    ".orig x3000\nL LDI R0, P1\nLDI R1, P2\nLDI R2, P3\nLDI R3, P4\nLDI R4, P5\nADD R5,R0,R1\nADD R5,R5,R2\nADD R5,R5,R3\nST R5, ACC\nSTI R4, P2\nBRnzp L\nP1 .fill xFE10\nP2 .fill xFE20\nP3 .fill xFE02\nP4 .fill xFE00\nP5 .fill xFFFF\nACC .blkw 1\n.end",
 ];
 const HANDLER: &str = ".orig x1F00\nADD R6,R6,#-1\nSTR R0,R6,#0\nLD R0, C\nADD R0,R0,#1\nST R0, C\nLDR R0,R6,#0\nADD R6,R6,#1\nRTI\nC .fill 0\n.end";
 
@@ -28,12 +30,12 @@ fn strategies(thorough: bool) -> Vec<MachineInitStrategy> {
 struct Cfg { strat: MachineInitStrategy, range: u8, tseed: u64, prog: usize, kb: u8, flags: u8 }
 
 fn make(c: &Cfg) -> (Simulator, BufferedDisplay) {
-    let mut sim = Simulator::new(SimFlags { machine_init: c.strat, use_real_traps: c.flags & 1 == 1, strict: false, debug_frames: c.flags & 2 == 2, ignore_privilege: false });
+    let mut sim = Simulator::new(SimFlags { machine_init: c.strat, use_real_traps: c.flags & 1 == 1, strict: false, debug_frames: c.flags & 2 == 2, ignore_privilege: c.prog == 5 });
     let p = assemble(parse_ast(PROGRAMS[c.prog]).unwrap()).unwrap();
     let h = assemble(parse_ast(HANDLER).unwrap()).unwrap();
     sim.load_obj_file(&p).unwrap(); sim.load_obj_file(&h).unwrap();
     sim.mem[0x0181].set(0x1F00);
-    let kb = BufferedKeyboard::default(); kb.get_buffer().write().unwrap().extend(match c.kb { 0 => &b""[..], 1 => &b"ab"[..], _ => &b"\x00\xffz"[..] });
+    let kb = BufferedKeyboard::default(); kb.get_buffer().write().unwrap_or_else(|e| e.into_inner()).extend(match c.kb { 0 => &b""[..], 1 => &b"ab"[..], _ => &b"\x00\xffz"[..] });
     let d = BufferedDisplay::default();
     sim.device_handler.set_keyboard(kb); sim.device_handler.set_display(d.clone());
     let mut t = match c.range { 0 => TimerDevice::new(Some(c.tseed), 3..=3, 0x81, 4), 1 => TimerDevice::new(Some(c.tseed), 1..=3, 0x81, 4), 2 => TimerDevice::new(Some(c.tseed), 0..=2, 0x81, 4), 4 => TimerDevice::new(Some(c.tseed), 3..=3, 0x81, 4), _ => TimerDevice::new(Some(c.tseed), 5..40, 0x81, 2) };
@@ -88,7 +90,7 @@ fn check_pair(c: &Cfg, steps: usize, what: &str, rep: u32) -> Result<u64, (Strin
             for (x, _) in a.observer.take_mem_accesses() { if x < 0xFE00 && a.mem[x] != b.mem[x] { return Err(("runs-diverge".into(), format!("{what}: two identically configured simulations of the same program with the same inputs do not produce identical histories (which component diverges first varies from run to run)"))); } }
             if a.frame_stack.len() != b.frame_stack.len() || a.instructions_run != b.instructions_run { return Err(("runs-diverge".into(), format!("{what}: two identically configured simulations of the same program with the same inputs do not produce identical histories (which component diverges first varies from run to run)"))); }
             if a.frame_stack.len() > depth0 && a.psr().priority() > 0 { interrupts += 1; }
-            if *da.get_buffer().read().unwrap() != *db.get_buffer().read().unwrap() { return Err(("runs-diverge".into(), format!("{what}: two identically configured simulations of the same program with the same inputs do not produce identical histories (which component diverges first varies from run to run)"))); }
+            if *da.get_buffer().read().unwrap_or_else(|e| e.into_inner()) != *db.get_buffer().read().unwrap_or_else(|e| e.into_inner()) { return Err(("runs-diverge".into(), format!("{what}: two identically configured simulations of the same program with the same inputs do not produce identical histories (which component diverges first varies from run to run)"))); }
             if ra.is_err() { break; }
         }
         for x in 0..0xFE00u16 { if a.mem[x] != b.mem[x] { return Err(("runs-diverge".into(), format!("{what}: two identically configured simulations of the same program with the same inputs do not produce identical histories (which component diverges first varies from run to run)"))); } }
@@ -98,13 +100,13 @@ fn check_pair(c: &Cfg, steps: usize, what: &str, rep: u32) -> Result<u64, (Strin
 }
 fn cfgs(thorough: bool) -> Vec<Cfg> {
     let mut v = vec![];
-    for strat in strategies(thorough) { for range in 0..5u8 { for tseed in if thorough { vec![5u64, 9, 0, u64::MAX] } else { vec![0u64, 9] } { for prog in 0..5 { for kb in 0..if thorough { 3u8 } else { 2 } { for flags in if thorough { vec![0u8, 1, 2, 3] } else { vec![0u8, 3] } {
+    for strat in strategies(thorough) { for range in 0..5u8 { for tseed in if thorough { vec![5u64, 9, 0, u64::MAX] } else { vec![0u64, 9] } { for prog in 0..6 { for kb in 0..if thorough { 3u8 } else { 2 } { for flags in if thorough { vec![0u8, 1, 2, 3] } else { vec![0u8, 3] } {
         v.push(Cfg { strat, range, tseed, prog, kb, flags });
     } } } } } }
     v
 }
 pub fn run(ctx: &Ctx) -> Report {
-    let mut rep = Report::new("grid: machine strategies {Seeded 0,1,2,7,2^63 (thorough +4), Known 0,xFFFF,x1234} x timer ranges {3..=3, 1..=3, 0..=2, 5..40, and three timers of equal priority firing on the same steps} x timer seeds (each configuration 4 times: with nothing, a simulator of another strategy, a run-and-reset simulator of the same configuration, or both built in the process between the two constructions) x 5 programs (one whose results depend on uninitialized registers and memory, a counting loop under timer interrupts, a GETC/OUT echo loop, PUTS + subroutine with stack, a stack-walking loop) x keyboard inputs x flag sets; for each configuration independently constructed simulators (4 pairs): identical initial 64K memory and registers, then after every one of 400 (thorough 1500) steps identical result, registers (with init flags), PC, PSR, touched memory, frame depth, instruction count, output; identical final memory; Known{v}: every register and every word outside the OS image and the I/O page equals v. non-trivial = configurations in which timer interrupts were taken");
+    let mut rep = Report::new("grid: machine strategies {Seeded 0,1,2,7,2^63 (thorough +4), Known 0,xFFFF,x1234} x timer ranges {3..=3, 1..=3, 0..=2, 5..40, and three timers of equal priority firing on the same steps} x timer seeds (each configuration 4 times: with nothing, a simulator of another strategy, a run-and-reset simulator of the same configuration, or both built in the process between the two constructions) x 6 programs (the sixth reads unmapped I/O ports and the device registers with privilege checks off) (one whose results depend on uninitialized registers and memory, a counting loop under timer interrupts, a GETC/OUT echo loop, PUTS + subroutine with stack, a stack-walking loop) x keyboard inputs x flag sets; for each configuration independently constructed simulators (4 pairs): identical initial 64K memory and registers, then after every one of 400 (thorough 1500) steps identical result, registers (with init flags), PC, PSR, touched memory, frame depth, instruction count, output; identical final memory; Known{v}: every register and every word outside the OS image and the I/O page equals v. non-trivial = configurations in which timer interrupts were taken");
     let cs = cfgs(ctx.thorough());
     let steps = ctx.pick(400usize, 1500usize);
     let r = sweep(ctx, cs.len() as u64, 1, |i, acc| {
